@@ -114,6 +114,17 @@ def numpy_int_representer(dumper, data):
 yaml.add_representer(np.int64, numpy_int_representer)
 yaml.add_representer(np.int32, numpy_int_representer)
 
+# every other numpy scalar type (float32, int16, uint8, complex64, bool_, ...)
+# would otherwise be dumped as a python/object tag that cannot be loaded
+def numpy_bool_representer(dumper, data):
+    return dumper.represent_bool(bool(data))
+def numpy_complex_representer(dumper, data):
+    return dumper.represent_scalar('!complex', repr(complex(data)))
+yaml.add_multi_representer(np.floating, numpy_float_representer)
+yaml.add_multi_representer(np.integer, numpy_int_representer)
+yaml.add_multi_representer(np.complexfloating, numpy_complex_representer)
+yaml.add_representer(np.bool_, numpy_bool_representer)
+
 
 # numpy ufuncs can no longer be pickled as of numpy 1.20
 # we still want to yamlize them, especially for TransforedPrior
